@@ -14,8 +14,7 @@ SPEC = dict(
                 "Tie: every flag returned by Merge::merge on ~100 concrete Rust types (all 9 ordered pairs of each generated triple, "
                 "pool-exhaustive pairs, cross-representation Merge<Other>) is diffed against the compiled model; on the real code "
                 "the oracle checks changed == (new != old) with the crate's ==, changed == false <=> other <= old (partial_cmp), "
-                "and old <= new. PARTIAL: DomPair's flag theorem is with its lattice theorem (C03 layer); tombstone lattices and "
-                "union-find are C05/C04."),
+                "and old <= new. DomPair over a totally ordered key is included. PARTIAL: tombstone lattices and union-find are C05/C04."),
     level_note=("Trusted as C01. A Vec-backed receiver (SetUnionVec as Self) reports true for duplicates; it has no PartialOrd so it "
                 "is not a Lattice in the crate and is outside the property's domain (not instantiated)."),
     trusted_base=["std HashSet/BTreeSet/HashMap/BTreeMap extend/insert/get/len modelled as list operations"],
